@@ -5,6 +5,9 @@ HERE = os.path.dirname(os.path.dirname(os.path.abspath(__file__)))
 ALL = ["C%02d" % i for i in range(1, 21)]
 
 CHECKS = {
+ "C07": dict(cat="fault_enumeration", tech="snapshot monitor (bit-exact values, Python kind, dtype, requires_grad of every variable; f() before/after) with failure injection by a counting/raising harness callable inside the loss at every evaluation index of the clean run",
+   text="Every gradient form (f:>literal, f:>symbol, symbol∇f, literal∇f, p∂g, loss:>[w b c], [w b]∂g) x parameter kinds (float / integer vectors, scalars, matrix) x three loss bodies x both backends is run clean and then with the loss failing at its k-th evaluation for every k of the clean run (capped at 12, then first/middle/last), with a non-scalar loss and with an unknown name; after each run the complete variable snapshot and the function's value must be identical to before. Fault positions are enumerated exhaustively per case up to the cap.",
+   note="the injected callable is the identity (keeps torch gradient tracking); bit-exact comparison of array contents.", ref="DESIGN.md §4 C07"),
  "C06": dict(cat="exploration", tech="reference-model monitor: independent forward-mode (dual number) evaluation of generated expression trees vs the real :> / ∇ / ∂ operators on both backends, plus cross-backend comparison and closed-form gradients at matrix points",
    text="Generated trees (size<=7) over arithmetic, integer and real powers, negation, +/ */, indexing, each and backend math functions are rendered to Klong functions and differentiated by f:>p, p∇f, p∂g and loss:>[w b] at grid points inside the smooth domain, for scalar, vector and multi-parameter forms, on numpy (numeric) and torch (autograd); results are compared with exact dual-number partials and across backends. Matrix-valued points, also produced by transposition / reversal / re-indexing, are checked against closed-form gradients. Held on the trees observed; thresholds leave a near-tolerance band so conditioning cannot alarm.",
    note="violation thresholds 1e-4 (numeric) / 1e-3 (autograd, cross-backend) relative; smooth-domain points only; the float32 numeric path on torch is a listed finding.", ref="DESIGN.md §4 C06"),
